@@ -72,7 +72,11 @@ def run(ctx) -> None:
     # N4 every line's operands come from that line
     from ._parser import lines_parsed_independently
     lines_parsed_independently(ctx, "C09.N4.lines-parsed-independently")
+    from ._parser import forwarding_rule
+    forwarding_rule(ctx, "C09.N4.lines-reach-the-parser-as-written")
     paths, sites, pats = instr_patterns(I)
+    from ._parser import operands_from_operand_group
+    operands_from_operand_group(ctx, "C09.N6.operands-only-from-operand-group", I, sites)
     # N5: a line with operands is never parsed by the operand-less regex
     from ..lineflow import instruction_sites, match_calls, origin
     n_no = 0
